@@ -155,11 +155,13 @@ CHECKS["C06"] = {
     "text": "Theorems (Coq) over MuWaitModel (mu.c + mu_wait.c: conditional waits, the multi-round scan of unlock_slow with condition "
             "evaluation outside the spinlock, same_condition rings as explicit prev/next pointers, ring repair on removal, timeout "
             "re-acquisition; values/guards regenerated): every condition evaluation happens while the evaluator owns lock bits and no "
-            "other thread is a writer (C06_eval_under_lock, resting on C01w_exclusion); the ring operations preserve RingInv and the scan "
-            "only skips waiters whose condition is false under a truth-preserving eq (C06_rings_*, C06_scan_sound, queues of any length).  "
+            "other thread is a writer (C06_eval_under_lock, resting on C01w_exclusion); in every reachable world the same_condition rings partition "
+            "mu->waiters and every scanner's private lists into runs of equivalent waiters (C06_RingInv_reachable), the scan only skips waiters "
+            "whose condition is false under a truth-preserving eq (C06_scan_sound), and whenever MU_ALL_FALSE is set with no writer, every queued "
+            "condition is false in the current state (C06_allfalse_sound) -- any threads / programs / schedules.  "
             "Lock-step replay with queue and ring snapshots; termination + evaluation oracles over conditional-wait scenarios.",
     "design_ref": "DESIGN.md section 4, C06",
-    "note": "RingInv not yet a reachable-world invariant; all-false soundness and no-stuck partial (coverage.partial).",
+    "note": "no-stuck (every waiter whose condition became true returns) is partial: stuck detector + quiescent-state observer (coverage.partial).",
     "technique": "Coq invariants and pure-function lemmas over source-regenerated model + lock-step trace inclusion + scenario oracles",
 }
 CHECKS["C05"] = {
